@@ -8,8 +8,11 @@ let handle ws =
   match List.map int_of_string ws with
   | [timeout; timer; _] ->
       let now = 1000000 in
-      let t = if timeout < 0 then None else Some (zt (ZZ.of_int timeout)) in
-      let next = (match timer with -1 | -2 -> None | -3 -> Some (zt (ZZ.of_int (now - 5))) | ms -> Some (zt (ZZ.of_int (now + ms)))) in
+      (* -1: None; -2: Some(Duration::MAX), in ms *)
+      let t = if timeout = -2 then Some (zt (ZZ.of_string "18446744073709551615999")) else if timeout < 0 then None else Some (zt (ZZ.of_int timeout)) in
+      let next = (match timer with -1 | -2 -> None | -3 -> Some (zt (ZZ.of_int (now - 5)))
+                                 | -4 -> Some (zt (ZZ.add (ZZ.of_int now) (ZZ.of_string "18446744073709551716")))   (* 2^64 ms + 100 ms *)
+                                 | ms -> Some (zt (ZZ.of_int (now + ms)))) in
       let e = eff_timeout t false next (zt (ZZ.of_int now)) in
       let fires = (match e, next with Some e, Some d -> ZZ.equal (tz e) (ZZ.max ZZ.zero (ZZ.sub (tz d) (ZZ.of_int now))) | _ -> false) in
       Printf.sprintf "%s %d" (match e with None -> "-1" | Some e -> ZZ.to_string (tz e)) (if fires then 1 else 0)
